@@ -58,7 +58,9 @@ func (r *rng) bytes(n int) []byte {
 // message:
 //
 //	1 varint (repeated)            2 string                         3 nested (repeated) { 1 varint (repeated), 2 bytes,
-//	4 packed fixed32               5 bytes (repeated)                  3 fixed64 (repeated), 4 string (repeated) }
+//	4 packed fixed32               5 bytes (repeated)                  3 fixed64 (repeated), 4 string (repeated),
+//	                                                                   5 nested (repeated) { 1 varint (repeated), 2 bytes,
+//	                                                                     3 nested { 1 varint (repeated) } } }
 //	6 fixed64 (repeated, unpacked) 7 fixed32 (repeated, unpacked)   8 packed varint
 //	9 declared, never present      10 nested { 1 varint }, sometimes damaged
 //	12 present, not declared
@@ -87,6 +89,29 @@ func genMsg(r *rng) []byte {
 		for j := r.intn(3); j > 0; j-- {
 			in = protowire.AppendTag(in, 4, protowire.BytesType)
 			in = protowire.AppendString(in, fmt.Sprintf("n%d", r.u64()%1000000))
+		}
+		// a third and a fourth message level: 3 -> 5 -> 3
+		for j := r.intn(3); j > 0; j-- {
+			var in2 []byte
+			for k := r.intn(3); k > 0; k-- {
+				in2 = protowire.AppendTag(in2, 1, protowire.VarintType)
+				in2 = protowire.AppendVarint(in2, r.u64()>>uint(r.intn(64)))
+			}
+			if r.intn(3) > 0 {
+				in2 = protowire.AppendTag(in2, 2, protowire.BytesType)
+				in2 = protowire.AppendBytes(in2, r.bytes(1+r.intn(9)))
+			}
+			if r.intn(2) > 0 {
+				var in3 []byte
+				for k := 1 + r.intn(3); k > 0; k-- {
+					in3 = protowire.AppendTag(in3, 1, protowire.VarintType)
+					in3 = protowire.AppendVarint(in3, r.u64()>>uint(r.intn(64)))
+				}
+				in2 = protowire.AppendTag(in2, 3, protowire.BytesType)
+				in2 = protowire.AppendBytes(in2, in3)
+			}
+			in = protowire.AppendTag(in, 5, protowire.BytesType)
+			in = protowire.AppendBytes(in, in2)
 		}
 		b = protowire.AppendTag(b, 3, protowire.BytesType)
 		b = protowire.AppendBytes(b, in)
@@ -133,6 +158,96 @@ func genMsg(r *rng) []byte {
 		b = append(b, 0x08) // malformed: a key without a value
 	}
 	return b
+}
+
+// refDeep is an independent protowire walk for the requests that go below the root: the last occurrence of each
+// tag of path but the last one (length-delimited), then the occurrences of the last tag - rendered like
+// UInt64Values (varint) or BytesValues (length-delimited). ok=false: the input is not well-formed there.
+func refDeep(msg []byte, path ...int) (vals []uint64, blobs [][]byte, found, ok bool) {
+	cur := msg
+	for li, tag := range path {
+		leaf := li == len(path)-1
+		var last []byte
+		has := false
+		b := cur
+		for len(b) > 0 {
+			num, typ, n := protowire.ConsumeTag(b)
+			if n < 0 {
+				return nil, nil, false, false
+			}
+			m := protowire.ConsumeFieldValue(num, typ, b[n:])
+			if m < 0 {
+				return nil, nil, false, false
+			}
+			if int(num) == tag {
+				switch {
+				case typ == protowire.BytesType:
+					v, _ := protowire.ConsumeBytes(b[n:])
+					last, has = v, true
+					if leaf {
+						blobs = append(blobs, v)
+					}
+				case typ == protowire.VarintType && leaf:
+					v, _ := protowire.ConsumeVarint(b[n:])
+					vals = append(vals, v)
+					has = true
+				default:
+					return nil, nil, false, false
+				}
+			}
+			b = b[n+m:]
+		}
+		if !has {
+			return nil, nil, false, true
+		}
+		cur = last
+	}
+	return vals, blobs, true, true
+}
+
+// deepPaths: the requests below the root (two, three and four message levels) and whether the last tag is a varint
+// field (read with UInt64Values) or a length-delimited one (BytesValues)
+var deepPaths = []struct {
+	path   []int
+	varint bool
+}{{[]int{3, 5, 1}, true}, {[]int{3, 5, 2}, false}, {[]int{3, 5, 3, 1}, true}, {[]int{3, 1}, true}, {[]int{3, 5, 3}, false}}
+
+func (o *observer) deep(res *lazyproto.DecodeResult) {
+	for _, p := range deepPaths {
+		what := label{fmt.Sprint("FieldData", p.path), "values", 0}
+		fd, err := res.FieldData(p.path...)
+		if err != nil {
+			o.out = append(what.append(o.out), "=absent;"...)
+			continue
+		}
+		if p.varint {
+			u, err := fd.UInt64Values()
+			o.value(what, u, err)
+		} else {
+			b, err := fd.BytesValues()
+			o.value(what, b, err)
+		}
+	}
+}
+
+// refDeepObservation: what deep must observe, from refDeep alone (not from another Decoder)
+func refDeepObservation(msg []byte) (string, bool) {
+	var o observer
+	for _, p := range deepPaths {
+		what := label{fmt.Sprint("FieldData", p.path), "values", 0}
+		vals, blobs, found, ok := refDeep(msg, p.path...)
+		switch {
+		case !ok:
+			return "", false
+		case !found:
+			o.out = append(what.append(o.out), "=absent;"...)
+		case p.varint:
+			o.value(what, vals, nil)
+		default:
+			o.value(what, blobs, nil)
+		}
+	}
+	return string(o.out), true
 }
 
 type accessor struct {
@@ -446,6 +561,23 @@ func (o *observer) read(res *lazyproto.DecodeResult, choice *rng, yield, cold bo
 	}
 	_, e31 := res.FieldData(3, 1, 1)
 	o.note(label{"", "FieldData(3,1,1)", 0}, false, e31)
+	// three and four message levels: root -> 3 -> 5 [-> 3], through paths and through explicit handles
+	o.deep(res)
+	if n3, err := res.NestedResult(3); err == nil && n3 != nil {
+		n5s, e5s := n3.NestedResults(5)
+		o.note(label{"last3", "NestedResults", 5}, len(n5s) > 0, e5s)
+		for i, n5 := range n5s {
+			where := nestedWhere[i%len(nestedWhere)]
+			a, ea := n5.UInt64Values(1)
+			o.value(label{"last3.5." + where, "UInt64Values", 1}, a, ea)
+			b, eb := n5.BytesValue(2)
+			o.value(label{"last3.5." + where, "BytesValue", 2}, b, eb)
+			if n53, err := n5.NestedResult(3); err == nil && n53 != nil {
+				c, ec := n53.UInt64Values(1)
+				o.value(label{"last3.5." + where + ".3", "UInt64Values", 1}, c, ec)
+			}
+		}
+	}
 	if cold {
 		for tag := 1; tag <= maxRootTag; tag++ {
 			o.sweep("root", res, tag)
@@ -509,13 +641,14 @@ func main() {
 	seed := flag.Uint64("seed", 1, "seed")
 	fast := flag.Bool("fast", false, "fast mode")
 	maxbuf := flag.Int("maxbuf", -1, "max buffer size")
+	filter := flag.String("filter", "", "buffer filter function: neg (always negative = leave alone), zero, half, mixed (negative for capacities up to 4, else 2)")
 	coldOnly := flag.Bool("cold", false, "every iteration is a cold-start sweep (use with a small -n)")
 	flag.Parse()
 	if *procs > 0 {
 		runtime.GOMAXPROCS(*procs)
 	}
 	def := lazyproto.NewDef(1, 2, 4, 5, 6, 7, 8, 9)
-	def.NestedTag(3, 1, 2, 3, 4)
+	def.NestedTag(3, 1, 2, 3, 4).NestedTag(5, 1, 2).NestedTag(3, 1)
 	def.NestedTag(10, 1)
 	mode := csproto.DecoderModeSafe
 	if *fast {
@@ -524,6 +657,25 @@ func main() {
 	opts := []lazyproto.Option{lazyproto.WithMode(mode)}
 	if *maxbuf >= 0 {
 		opts = append(opts, lazyproto.WithMaxBufferSize(*maxbuf))
+	}
+	switch *filter {
+	case "":
+	case "neg":
+		opts = append(opts, lazyproto.WithBufferFilterFunc(func(int) int { return -1 }))
+	case "zero":
+		opts = append(opts, lazyproto.WithBufferFilterFunc(func(int) int { return 0 }))
+	case "half":
+		opts = append(opts, lazyproto.WithBufferFilterFunc(func(c int) int { return c / 2 }))
+	case "mixed":
+		opts = append(opts, lazyproto.WithBufferFilterFunc(func(c int) int {
+			if c <= 4 {
+				return -1
+			}
+			return 2
+		}))
+	default:
+		fmt.Println("setup: unknown -filter", *filter)
+		os.Exit(2)
 	}
 	shared, err := lazyproto.NewDecoder(def, opts...)
 	if err != nil {
@@ -619,6 +771,17 @@ func main() {
 				got.note(label{"", "Decode", 0}, sres != nil, serr)
 				if serr == nil && sres != nil {
 					got.read(sres, &rng{s: choiceSeed}, i%3 == 0, cold)
+				}
+				if serr == nil && sres != nil {
+					// the requests below the root once more, against the protowire walk of this goroutine's own input (the
+					// private Decoder above is the same code: it would share a mistake that does not depend on scheduling)
+					if wantDeep, ok := refDeepObservation(msg); ok {
+						var d observer
+						d.deep(sres)
+						if string(d.out) != wantDeep {
+							report("MISMATCH goroutine=%d iteration=%d msg=%x: values below the root differ from the reference walk of the input\n want %s\n got  %s\n", gi, i, msg, diffAt([]byte(wantDeep), d.out), diffAt(d.out, []byte(wantDeep)))
+						}
+					}
 				}
 				if string(want.out) != string(got.out) {
 					report("MISMATCH goroutine=%d iteration=%d msg=%x\n want %s\n got  %s\n", gi, i, msg, diffAt(want.out, got.out), diffAt(got.out, want.out))
